@@ -892,10 +892,7 @@ func (c *client) maybeOverrideUnsupportedWriteConsistency(isSelect bool, raw *fr
 					zap.Stringer("unsupported", m.Consistency),
 					zap.Stringer("override", overrideConsistency))
 				m.Consistency = overrideConsistency
-				return &frame.Frame{
-					Header: raw.Header,
-					Body:   body,
-				}
+				return c.reencodeFrame(raw, body)
 			} else {
 				c.proxy.logger.Debug("no override required for execute write consistency",
 					zap.Stringer("request", m),
@@ -908,10 +905,7 @@ func (c *client) maybeOverrideUnsupportedWriteConsistency(isSelect bool, raw *fr
 					zap.Stringer("unsupported", m.Consistency),
 					zap.Stringer("override", overrideConsistency))
 				m.Consistency = overrideConsistency
-				return &frame.Frame{
-					Header: raw.Header,
-					Body:   body,
-				}
+				return c.reencodeFrame(raw, body)
 			} else {
 				c.proxy.logger.Debug("no override required for query write consistency",
 					zap.Stringer("request", m),
@@ -924,10 +918,7 @@ func (c *client) maybeOverrideUnsupportedWriteConsistency(isSelect bool, raw *fr
 					zap.Stringer("unsupported", m.Consistency),
 					zap.Stringer("override", overrideConsistency))
 				m.Consistency = overrideConsistency
-				return &frame.Frame{
-					Header: raw.Header,
-					Body:   body,
-				}
+				return c.reencodeFrame(raw, body)
 			} else {
 				c.proxy.logger.Debug("no override required for batch write consistency",
 					zap.Stringer("request", m),
@@ -937,6 +928,23 @@ func (c *client) maybeOverrideUnsupportedWriteConsistency(isSelect bool, raw *fr
 	}
 
 	return raw
+}
+
+// reencodeFrame encodes the modified body of a request into a new raw frame that uses the original request's header.
+// The raw frame's length is derived from the bytes actually written; encoding a request `frame.Frame` directly would
+// declare room for a tracing id (which only responses carry) when the client set the tracing flag.
+func (c *client) reencodeFrame(raw *frame.RawFrame, body *frame.Body) interface{} {
+	frm := &frame.Frame{
+		Header: raw.Header,
+		Body:   body,
+	}
+	converted, err := c.codec.ConvertToRawFrame(frm)
+	if err != nil {
+		// Forward the request as it was received, the backend will answer with its own error for the consistency level
+		c.proxy.logger.Error("unable to re-encode request after overriding the write consistency", zap.Error(err))
+		return raw
+	}
+	return converted
 }
 
 func (c *client) isUnsupportedWriteConsistency(consistency primitive.ConsistencyLevel) bool {
